@@ -133,7 +133,7 @@ func (app *App) handleAdminMessage(msg []byte) ([]byte, error) {
 				switch cmd.Which {
 				case "":
 					err = errBadCommand
-				case "all":
+				case "all", "deleteAll": // "deleteAll" is the reserved id that empties the rule table
 					app.Websocket.Delete <- "deleteAll"
 					// don't lock ourselves out!
 					if app.Opts.API != "" {
